@@ -632,4 +632,138 @@ theorem run_cap {s s' : St} {acts : List Act} (h : run s acts = some s') : s'.ca
       · exact (ih h).trans (step_cap hs)
       · cases h
 
+/-! ### datapoints accepted before the heartbeat's initial flush -/
+
+/-- `dp` was accepted during start-up and is either still in the consolidator (no flush yet) or in the body of
+flush 0 -/
+def EarlyIn (s : St) (dp : Nat) : Prop :=
+  (s.initFlushed = false ∧ dp ∈ s.buf) ∨ (∃ f, s.flushes[0]? = some f ∧ dp ∈ f.body)
+
+/-- before the initial flush nothing has been flushed and no runtimeDone record is pending -/
+theorem early_empty {s : St} (inv : Inv s) (h : s.initFlushed = false) : s.flushes = [] ∧ s.doneQueued = 0 := by
+  obtain ⟨c, l⟩ := inv
+  have he : s.pc.early = true := by
+    cases hp : s.pc.early with
+    | true => rfl
+    | false => have := c.late hp; rw [h] at this; cases this
+  have h0 := (c.early he).1
+  have hne : s.pc ≠ .inNext := by intro hp; rw [hp] at he; cases he
+  have hr := c.pcR2 hne
+  have hd := c.done
+  have hen := c.env
+  have hlen := l.len
+  rw [h] at hlen
+  simp only [Bool.false_eq_true, if_false] at hlen
+  refine ⟨List.eq_nil_of_length_eq_zero (by omega), by omega⟩
+
+theorem earlyIn_step {s s' : St} {a : Act} (dp : Nat) (inv : Inv s) (h : step s a = some s') (he : EarlyIn s dp) :
+    EarlyIn s' dp := by
+  rcases he with ⟨hf, hb⟩ | ⟨f, hf0, hb⟩
+  · -- still in the consolidator
+    obtain ⟨hnil, hq⟩ := early_empty inv hf
+    cases a with
+    | register | subscribe | serverFail | initError | windowElapsed | hbWait | hbNext | rtInvoke | rtShutdown =>
+      simp only [step] at h
+      split at h
+      · simp only [Option.some.injEq] at h; subst h; exact Or.inl ⟨hf, hb⟩
+      · cases h
+    | rtDone | otherRecord =>
+      simp only [step, Option.some.injEq] at h; subst h; exact Or.inl ⟨hf, hb⟩
+    | accept d =>
+      simp only [step] at h
+      split at h
+      · cases h
+      · simp only [Option.some.injEq] at h; subst h
+        exact Or.inl ⟨hf, List.mem_append_left _ hb⟩
+    | hbInitFlush =>
+      simp only [step] at h
+      split at h
+      · simp only [Option.some.injEq] at h; subst h
+        refine Or.inr ⟨{ st := .created, origin := none, body := s.buf }, ?_, hb⟩
+        simp [hnil]
+      · cases h
+    | teleFlush =>
+      simp only [step] at h
+      split at h
+      · omega
+      · cases h
+    | skip j | postBegin j | postEnd j | notify j =>
+      simp only [step] at h
+      split at h
+      · rename_i g hg; rw [hnil] at hg; simp at hg
+      · cases h
+  · -- in the body of flush 0: bodies never change, flushes are only appended
+    have hlen : 0 < s.flushes.length := by
+      rcases Nat.lt_or_ge 0 s.flushes.length with h' | h'
+      · exact h'
+      · rw [List.getElem?_eq_none_iff.mpr h'] at hf0; cases hf0
+    cases a with
+    | register | subscribe | serverFail | initError | windowElapsed | hbWait | hbNext | rtInvoke | rtShutdown =>
+      simp only [step] at h
+      split at h
+      · simp only [Option.some.injEq] at h; subst h; exact Or.inr ⟨f, hf0, hb⟩
+      · cases h
+    | rtDone | otherRecord =>
+      simp only [step, Option.some.injEq] at h; subst h; exact Or.inr ⟨f, hf0, hb⟩
+    | accept d =>
+      simp only [step] at h
+      split at h
+      · cases h
+      · simp only [Option.some.injEq] at h; subst h; exact Or.inr ⟨f, hf0, hb⟩
+    | hbInitFlush | teleFlush =>
+      simp only [step] at h
+      split at h
+      · simp only [Option.some.injEq] at h; subst h
+        refine Or.inr ⟨f, ?_, hb⟩
+        simp only
+        rw [List.getElem?_append_left hlen]; exact hf0
+      · cases h
+    | skip j | postBegin j | postEnd j | notify j =>
+      simp only [step] at h
+      split at h
+      · rename_i g hg
+        split at h
+        · simp only [Option.some.injEq] at h; subst h
+          by_cases hj : j = 0
+          · subst hj
+            rw [hf0] at hg; cases hg
+            refine Or.inr ?_
+            simp only [setFlush]
+            rw [getElem?_set' s.flushes 0 0 f _ hf0]
+            simpa using hb
+          · refine Or.inr ⟨f, ?_, hb⟩
+            simp only [setFlush]
+            rw [getElem?_set' s.flushes j 0 g _ hg]; simp [hj, hf0]
+        · cases h
+      · cases h
+
+theorem earlyIn_run {s s' : St} {acts : List Act} (dp : Nat) (inv : Inv s) (h : run s acts = some s')
+    (he : EarlyIn s dp) : EarlyIn s' dp := by
+  induction acts generalizing s with
+  | nil => simp only [run, Option.some.injEq] at h; subst h; exact he
+  | cons a t ih =>
+    simp only [run] at h
+    cases hs : step s a with
+    | none => simp [hs] at h
+    | some s₁ =>
+      simp only [hs] at h
+      split at h
+      · rename_i henv
+        exact ih (inv_step inv hs henv) h (earlyIn_step dp inv hs he)
+      · cases h
+
+theorem run_append {s : St} (as bs : List Act) : run s (as ++ bs) = (run s as).bind (fun s' => run s' bs) := by
+  induction as generalizing s with
+  | nil => simp [run]
+  | cons a t ih =>
+    simp only [List.cons_append, run]
+    cases hs : step s a with
+    | none => simp
+    | some s₁ =>
+      simp only
+      split
+      · exact ih
+      · simp
+
+
 end Gsd.Lambda
